@@ -15,13 +15,51 @@ use serde_json::{json, Value};
 pub struct WorldCtx {
     pub corpus: &'static crate::wowm::Corpus,
     pub models: Vec<Model<'static>>, // indexed by Exp order
+    /// names of messages with a compressed member or compressed as a whole, per exp*2+dir
+    pub compressed: Vec<Vec<String>>,
 }
 
 impl WorldCtx {
     pub fn new() -> WorldCtx {
         let corpus: &'static crate::wowm::Corpus = Box::leak(Box::new(load_corpus_or_exit()));
-        let models = Exp::ALL.iter().map(|e| model_or_exit(corpus, Target::World(*e))).collect();
-        WorldCtx { corpus, models }
+        let models: Vec<Model<'static>> = Exp::ALL.iter().map(|e| model_or_exit(corpus, Target::World(*e))).collect();
+        let mut compressed = Vec::new();
+        for m in &models {
+            for d in [Dir::Client, Dir::Server] {
+                compressed.push(
+                    m.messages_dir(d)
+                        .iter()
+                        .filter(|c| crate::wowm::tag(&c.tags, "compressed") == Some("true") || format!("{:?}", c.members).contains("(\"compressed\", \"true\")"))
+                        .map(|c| c.name.clone())
+                        .collect(),
+                );
+            }
+        }
+        WorldCtx { corpus, models, compressed }
+    }
+    pub fn compressed_names(&self, e: Exp, d: Dir) -> &Vec<String> {
+        &self.compressed[Exp::ALL.iter().position(|x| *x == e).unwrap() * 2 + if d == Dir::Client { 0 } else { 1 }]
+    }
+    /// a large compressed message (incompressible payload) whose wire size lands around a header-form boundary
+    pub fn big_compressed_frame(&self, e: Exp, d: Dir, rng: &mut Rng) -> Option<(Value, String)> {
+        let names = self.compressed_names(e, d);
+        if names.is_empty() {
+            return None;
+        }
+        let name = rng.pick(names).clone();
+        let m = self.model(e);
+        let c = m.message(&name)?;
+        let target = match rng.below(3) {
+            0 => 0x7FC0 + rng.below(0x80) as usize,
+            1 => 0xFF80 + rng.below(0x60) as usize,
+            _ => 0x4000 + rng.below(0x10000) as usize,
+        };
+        let knobs = Knobs { endless_len: Some(target), max_arr: 600, size_budget: target + 2000, ..Knobs::default() };
+        let f = m.encode(c, rng, &knobs).ok()?;
+        if f.wire_body().len() > max_expressible_body(e, d) {
+            return None;
+        }
+        Some((bytes_to_json(&world_wire(e, d, &f)), f.name))
     }
     pub fn model(&self, e: Exp) -> &Model<'static> {
         &self.models[Exp::ALL.iter().position(|x| *x == e).unwrap()]
@@ -229,7 +267,24 @@ impl Check for C02 {
             }
             _ => {}
         }
-        let (frames, names) = gen_frames(m, exp, dir, &mut wl, n, &knobs);
+        let (mut frames, mut names) = gen_frames(m, exp, dir, &mut wl, n, &knobs);
+        if cf.chance(1, 10) {
+            if let Some((f, nm)) = self.ctx.big_compressed_frame(exp, dir, &mut wl) {
+                let pos = cf.below(frames.len() as u64 + 1) as usize;
+                frames.insert(pos, f);
+                names.insert(pos, nm);
+            }
+        }
+        // WARDEN_DATA bodies around the header-form boundaries also inside ordinary sessions
+        let mut warden = Vec::new();
+        if cf.chance(1, 6) {
+            let len = match (exp, dir) {
+                (Exp::Wrath, Dir::Server) => 0x7FF6 + cf.below(16) as usize,
+                (_, Dir::Client) => *cf.pick(&[0usize, 1, 0x7FFF, 0x8000, 0xFFF0, 0xFFF9]),
+                _ => *cf.pick(&[0usize, 1, 0x7FFF, 0x8000, 0xFFF0, 0xFFFB]),
+            };
+            warden.push(json!([cf.below(frames.len() as u64 + 1), len]));
+        }
         let total: usize = frames.iter().map(|f| json_to_bytes(f).len()).sum();
         let wfl = pick_flavour(&mut cf);
         let rfl = pick_flavour(&mut cf);
@@ -245,7 +300,7 @@ impl Check for C02 {
             vec![]
         };
         json!({"kind": "session", "label": format!("{}:{}:{}", exp.name(), dir.name(), names.join("+")),
-            "exp": exp.name(), "dir": dir.name(), "frames": frames, "names": names, "wrong_expect": wrong,
+            "exp": exp.name(), "dir": dir.name(), "frames": frames, "names": names, "wrong_expect": wrong, "warden": warden,
             "wflavour": wfl.name(), "rflavour": rfl.name(), "rentry": entry, "wsched": sched_json(&ws), "rsched": sched_json(&rs)})
     }
 
@@ -426,8 +481,15 @@ pub fn run_session(o: &mut Outcome, exp: Exp, dir: Dir, wl: &Workload, sc: &Valu
             }
             Ok(wo) => {
                 if let Err(e) = wo.result {
-                    o.violate("writer_error", format!("write-error:{}:{}", e, wl.names[i]), format!("writer returned error {} on an in-memory pipe", e));
+                    // the compressed writers refuse sizes their header cannot carry; that is only acceptable for large messages
+                    let model_len = sc["frames"].as_array().and_then(|a| a.iter().map(|f| json_to_bytes(f).len()).max()).unwrap_or(0);
+                    if e == "InvalidInput" && model_len > 0xF000 {
+                        o.count("writer_refused_too_large_not_judged", 1);
+                    } else {
+                        o.violate("writer_error", format!("write-error:{}:{}", e, wl.names[i]), format!("writer returned error {} on an in-memory pipe", e));
+                    }
                     w.data.truncate(before);
+                    write_failed = true;
                     break;
                 }
                 if wo.budget_exceeded {
@@ -449,6 +511,20 @@ pub fn run_session(o: &mut Outcome, exp: Exp, dir: Dir, wl: &Workload, sc: &Valu
                     break;
                 }
             }
+        }
+        // a message whose body the header form cannot express: nothing is required of it (and nothing after it on this stream)
+        let hl = match dir {
+            Dir::Client => 6,
+            Dir::Server => 4,
+        };
+        if w.data.len() - before > max_expressible_body(exp, dir) + hl {
+            o.count("beyond_expressible_not_judged", 1);
+            w.data.truncate(before);
+            if encrypted {
+                shadow.truncate(shadow.len() - (shadow.len() - before.min(shadow.len())));
+            }
+            write_failed = true;
+            break;
         }
         bounds.push(w.data.len());
         written.push(i);
